@@ -154,11 +154,66 @@ def cases_cli():
     return 'Trace_Cli', CFG_CLI, out
 
 
+def cases_pbc():
+    e = {'op': 'dist', 'finite': True, 'ortho': True, 'min_image': True, 'le_plain': True, 'symmetric': True, 'shift_inv': True,
+         'inv_flag': True, 'res_point': True}
+    b = {'ev': [e, dict(e, ortho=False, min_image=False, le_plain=False)]}
+    out = [('ok (triclinic boxes need no minimum image)', b, None)]
+    out.append(('orthorhombic not minimum image', mutate(b, lambda t: t['ev'][0].update(min_image=False)), 'minimum_image'))
+    out.append(('not shift invariant (triclinic)', mutate(b, lambda t: t['ev'][1].update(shift_inv=False)), 'lattice_shift_invariant'))
+    out.append(('inverse flag inconsistent', mutate(b, lambda t: t['ev'][1].update(inv_flag=False)), 'inverse_flag_consistent'))
+    return 'Trace_PBC', "SPECIFICATION TraceSpec\nINVARIANT Accepted\nCHECK_DEADLOCK FALSE\n", out
+
+
+def cases_frames():
+    r = {'op': 'rot', 'finite': True, 'orth': True, 'det': True, 'axis_fixed': True, 'trace': True, 'transpose': True, 'compose': True,
+         'scale_indep': True}
+    f = {'op': 'frame', 'finite': True, 'collinear': False, 'orthonormal': True, 'right_handed': True, 'first': True, 'normal': True,
+         'origin': True, 'intact': True}
+    b = {'ev': [r, f, dict(f, collinear=True, normal=False)]}
+    out = [('ok (collinear: normal is free)', b, None)]
+    out.append(('improper rotation', mutate(b, lambda t: t['ev'][0].update(det=False)), 'det_plus_one'))
+    out.append(('depends on axis length', mutate(b, lambda t: t['ev'][0].update(scale_indep=False)), 'axis_length_independent'))
+    out.append(('left handed frame', mutate(b, lambda t: t['ev'][1].update(right_handed=False)), 'right_handed'))
+    out.append(('generic frame not normal to plane', mutate(b, lambda t: t['ev'][1].update(normal=False)), 'third_vector_normal_to_plane'))
+    out.append(('collinear frame not orthonormal', mutate(b, lambda t: t['ev'][2].update(orthonormal=False)), 'orthonormal'))
+    out.append(('input modified', mutate(b, lambda t: t['ev'][2].update(intact=False)), 'inputs_not_modified'))
+    return 'Trace_Frames', "SPECIFICATION TraceSpec\nINVARIANT Accepted\nCHECK_DEADLOCK FALSE\n", out
+
+
+def cases_chi2():
+    b = {'cfg': {'fixed': [[0, 0, 0], [2, 0, 0], [1, 1, 0]], 'nm': 2, 'restr': [[3, 1]]},
+         'ev': [{'op': 'Eval', 'mobile': [[0, 0, 0], [2, 0, 0]], 'finite': True, 'nonneg': True, 'cand': [[2, 0]], 'value': 2.0},
+                {'op': 'Inv', 'rigid': True, 'relabel': True, 'paths': True}]}
+    out = [('ok', b, None)]
+    out.append(('restraint ignored (nearest atom used)', mutate(b, lambda t: t['ev'][0].update(cand=[[0, 0]])), 'value_is_reference_definition'))
+    out.append(('penalty exponent off by one', mutate(b, lambda t: t['ev'][0].update(cand=[[2, 1]])), 'value_is_reference_definition'))
+    out.append(('not invariant under rigid motion', mutate(b, lambda t: t['ev'][1].update(rigid=False)), 'rigid_motion_invariant'))
+    return 'Trace_Chi2', "SPECIFICATION TraceSpec\nCONSTANTS\n  Cases = {}\nINVARIANT Accepted\nCHECK_DEADLOCK FALSE\n", out
+
+
+def cases_moveatom():
+    b = {'cfg': {'n': 4, 'adj': [[2], [1, 3, 4], [2], [2]], 'root': 1},
+         'ev': [{'op': 'Displace', 'exact_vector': True, 'input_intact': True}, {'op': 'Restore', 'c': 2}, {'op': 'Restore', 'c': 4},
+                {'op': 'Restore', 'c': 3}, {'op': 'End', 'finite': True, 'exact': [[1, 2], [2, 3], [2, 4]], 'others_intact': True},
+                {'op': 'Draw', 'deg': 1, 'finite': True, 'perp': True}]}
+    out = [('ok (any frontier order)', b, None)]
+    out.append(('atom restored before it is on the frontier', mutate(b, lambda t: t['ev'].__setitem__(slice(1, 3), [t['ev'][2], t['ev'][1]])),
+                'restored_atom_is_on_the_frontier'))
+    out.append(('a bond left inexact', mutate(b, lambda t: t['ev'][4].update(exact=[[1, 2], [2, 3]])), 'tree_all_bonds_exact'))
+    out.append(('an atom never restored', mutate(b, lambda t: t['ev'].__delitem__(3)), 'every_claimed_atom_was_restored'))
+    out.append(('input array modified', mutate(b, lambda t: t['ev'][0].update(input_intact=False)), 'input_array_not_modified'))
+    out.append(('draw not perpendicular', mutate(b, lambda t: t['ev'][5].update(perp=False)), 'draw_perpendicular'))
+    from harness.drivers.moveatom import TRACE_CFG as MA_CFG
+    return 'Trace_MoveAtom', MA_CFG, out
+
+
 def main():
     scratch = tempfile.mkdtemp(prefix='verif_binding_')
     bad = 0
     try:
-        for fn in (cases_montecarlo, cases_alignment, cases_restraints, cases_recognise, cases_extrapolate, cases_cli):
+        for fn in (cases_montecarlo, cases_alignment, cases_restraints, cases_recognise, cases_extrapolate, cases_cli, cases_pbc,
+                   cases_frames, cases_chi2, cases_moveatom):
             module, cfg, cases = fn()
             part = os.path.join(scratch, module + '.ndjson')
             with open(part, 'w') as fh:
